@@ -14,7 +14,8 @@ from ..tensor import Arr
 LEVEL = "other"
 KEYS = """s_Gamma_udd3 s_Riemann_uddd3 s_Riemann_down3 s_Ricci_down3 s_RicciS
  s_Gamma_udd3_bssnok s_Gamma_bssnok s_Ricci_down3_bssnok s_RicciS_bssnok s_Ricci_down3_phi
- DDalpha psi_bssnok phi_bssnok gammadown3_bssnok gammaup3_bssnok""".split()
+ DDalpha psi_bssnok phi_bssnok gammadown3_bssnok gammaup3_bssnok
+ st_Gamma_udd4""".split()      # (the connection of the spacetime covariant derivative)
 
 G = "s_Gamma_udd3"
 COVD = {
